@@ -485,6 +485,9 @@ double RescaledHmmLikelihood::getDLogLikelihoodForASite(size_t site) const
 
 void RescaledHmmLikelihood::computeD2Forward_() const
 {
+  // The recursion reads the first-order arrays of the same variable:
+  getFirstOrderDerivative(d2Variable_);
+
   // Init arrays:
   if (d2Likelihood_.size() == 0)
   {
